@@ -306,3 +306,37 @@ def replay_equal_integers(viol):
     ]
     cases[-1] = ("Y is 2^60-2^60+2, length(L, Y), length(L, N), show(N)", "2")
     return run_cases(EQI_PROGRAM, cases, {"model": viol}, "C05", "equal_integers")
+
+
+# ---------------------------------------------------------------- C01 (bignum arms)
+def replay_bignum_arms(viol):
+    """exact integer arithmetic on operands around the fixnum / word boundaries, expected values
+    from Python's big integers"""
+    big = [2**55, -(2**55) - 1, 2**64, -(2**64), 2**70 + 3, 2**60 - 2**60 + 2]
+    small = [7, -7, 2, -2, -(2**55), 2**55 - 1, 1, -1]
+    ops = {"add": ("+", lambda a, b: a + b), "mul": ("*", lambda a, b: a * b),
+           "idiv": ("//", lambda a, b: abs(a) // abs(b) * (1 if (a < 0) == (b < 0) else -1)),
+           "remainder": ("rem", lambda a, b: a - b * (abs(a) // abs(b) * (1 if (a < 0) == (b < 0) else -1))),
+           "modulus": ("mod", lambda a, b: a % b), "and": ("/\\", lambda a, b: a & b),
+           "or": ("\\/", lambda a, b: a | b), "xor": ("xor", lambda a, b: a ^ b),
+           "gcd": ("gcd", None)}
+    import math
+    cases = []
+    kernels = {v["kernel"] for v in viol}
+    for k in sorted(kernels):
+        sym, f = ops.get(k, (None, None))
+        if sym is None:
+            continue
+        pairs = [(a, b) for a in big for b in small] + [(a, b) for a in small for b in big] + \
+                [(a, b) for a in big[:4] for b in big[:4]]
+        if k == "modulus":
+            pairs += [(2**64, -2), (2**55, -1), (0, -(2**64)), (-(2**64), 2**32), (2**64 + 1, -2)]
+        for a, b in pairs:
+            if b == 0:
+                continue
+            want = math.gcd(a, b) if k == "gcd" else f(a, b)
+            # operands are built at run time so that small values travel in bignum cells too
+            goal = ("A is %d + 2^80 - 2^80, B is %d + 2^80 - 2^80, X is %s, write(X), nl" % (
+                a, b, ("gcd(A,B)" if k == "gcd" else "A %s B" % sym)))
+            cases.append((goal, str(want)))
+    return run_cases("", cases[:400], {"model": viol}, "C01", "bignum_arms")
